@@ -32,6 +32,8 @@ pub enum Lay {
     Phonetic,
     Probhat,
     Verif,
+    /// a file with the same name as the bundled Probhat.json, in another directory, with some keys exchanged
+    Twin,
 }
 
 impl Lay {
@@ -40,6 +42,7 @@ impl Lay {
             Lay::Phonetic => "avro_phonetic".to_string(),
             Lay::Probhat => format!("{REPO}/data/Probhat.json"),
             Lay::Verif => format!("{VERIF}/layouts/verif.json"),
+            Lay::Twin => format!("{VERIF}/layouts/twin/Probhat.json"),
         }
     }
     pub fn name(self) -> &'static str {
@@ -47,6 +50,7 @@ impl Lay {
             Lay::Phonetic => "phonetic",
             Lay::Probhat => "probhat",
             Lay::Verif => "verif",
+            Lay::Twin => "twin",
         }
     }
     pub fn from_name(s: &str) -> Option<Lay> {
@@ -54,6 +58,7 @@ impl Lay {
             "phonetic" => Some(Lay::Phonetic),
             "probhat" => Some(Lay::Probhat),
             "verif" => Some(Lay::Verif),
+            "twin" => Some(Lay::Twin),
             _ => None,
         }
     }
@@ -163,6 +168,47 @@ impl CfgSpec {
             let out = (*p).clone();
             riti_config_free(p);
             out
+        }
+    }
+
+    /// Apply one option (bit index 0..11) of this specification to an existing configuration object through its setter.
+    fn set_bit(&self, cfg: &mut Config, bit: usize) {
+        let on = self.opts & (1 << bit) != 0;
+        unsafe {
+            match 1u16 << bit {
+                O_ENG => riti_config_set_suggestion_include_english(cfg as *mut Config, on),
+                O_PSUGG => riti_config_set_phonetic_suggestion(cfg as *mut Config, on),
+                O_FSUGG => cfg.set_fixed_suggestion(on),
+                O_VOWEL => cfg.set_fixed_automatic_vowel(on),
+                O_CHANDRA => cfg.set_fixed_automatic_chandra(on),
+                O_TKAR => cfg.set_fixed_traditional_kar(on),
+                O_REPH => cfg.set_fixed_old_reph(on),
+                O_NUMPAD => cfg.set_fixed_numpad(on),
+                O_KARORDER => cfg.set_fixed_old_kar_order(on),
+                O_ANSI => cfg.set_ansi_encoding(on),
+                O_SQ => cfg.set_smart_quote(on),
+                _ => {}
+            }
+        }
+    }
+
+    /// Bring an existing configuration object (currently describing `old`) to this specification the way a front-end
+    /// that keeps one object does: `mode` 1 = every setter, options in ascending order (English before ANSI); 2 = every
+    /// setter, descending order; 3 = only the setters of what changed, ascending; 4 = only what changed, descending.
+    pub fn apply(&self, cfg: &mut Config, old: &CfgSpec, mode: u8) {
+        let all = mode == 1 || mode == 2;
+        if all || old.lay != self.lay {
+            let l = CString::new(self.lay.path()).unwrap();
+            unsafe {
+                assert!(riti_config_set_layout_file(cfg as *mut Config, l.as_ptr()), "layout path rejected: {}", self.lay.path());
+            }
+        }
+        let mut bits: Vec<usize> = (0..11).filter(|b| all || (old.opts ^ self.opts) & (1 << b) != 0).collect();
+        if mode == 2 || mode == 4 {
+            bits.reverse();
+        }
+        for b in bits {
+            self.set_bit(cfg, b);
         }
     }
 }
@@ -542,6 +588,20 @@ impl Sess {
         let ctx = &mut self.ctx;
         guard(|| ctx.update_engine(&cfg))?;
         self.cfg = cfg;
+        self.spec = spec;
+        Ok(())
+    }
+    /// update_engine with the configuration delivered as `mode` says: 0 = a newly built configuration object,
+    /// 1..=4 = the session's own object changed through its setters (see `CfgSpec::apply`).
+    pub fn update_with(&mut self, spec: CfgSpec, mode: u8) -> Result<(), Panic> {
+        if mode == 0 || spec.small != self.spec.small {
+            return self.update(spec);
+        }
+        let old = self.spec;
+        let cfg = &mut self.cfg;
+        guard(|| spec.apply(cfg, &old, mode))?;
+        let (ctx, cfg) = (&mut self.ctx, &self.cfg);
+        guard(|| ctx.update_engine(cfg))?;
         self.spec = spec;
         Ok(())
     }
